@@ -18,10 +18,24 @@ META = {
     "design_ref": "DESIGN.md 5 C03",
     "level_text": "Agreement of the routes is decided against a third party: the behaviour TLC derives from AldorSem.tla for the same abstract "
                   "program, including programs that end by an explicit halt (error). Every (program, level, route) run must print the "
-                  "specified output and finish in the specified exit class, which implies pairwise agreement of the three routes.",
+                  "specified output and finish in the specified exit class, which implies pairwise agreement of the three routes. "
+                  "A deviation from the specification that all routes of one level share (the compiler fails the same way, or both print "
+                  "the same wrong text) is not a disagreement of the routes: it is tallied (extra.off_specification_but_routes_agree) "
+                  "and left to C01/C02; the specification then tells WHICH route is wrong when they differ.",
     "level_note": "Trusted: AldorSem.tla, renderer, gcc, shipped libraries. The interpreter's call-stack listing after a halt is treated as "
                   "a diagnostic (not program output). Uncaught exceptions with payload and failed assertions are not in the family yet.",
 }
+
+
+def level_of(label):
+    return label.rsplit("-", 1)[-1]
+
+
+def merge_agree(acc, per_route):
+    a = per_route.get("<agree>", {})
+    acc["groups"] = acc.get("groups", 0) + a.get("groups_off_spec_but_agreeing", 0)
+    acc.setdefault("examples", [])
+    acc["examples"] = (acc["examples"] + a.get("examples", []))[:12]
 
 
 def run(chk, tier):
@@ -34,7 +48,8 @@ def run(chk, tier):
         routes += [("interp-Q%d" % q, "interp", q, ()), ("ao-interp-Q%d" % q, "ao", q, ()), ("c-Q%d" % q, "c", q, ())]
     fixed = fixedprogs.fixed_regressions() + fixedprogs.findings_opt()
     fam0 = progcheck.Family(chk, fixed, "fixed", cfg="AldorSemAny", workers=4, timeout=300)
-    progcheck.replay(chk, b, fam0, routes, wd)
+    agree = {}
+    merge_agree(agree, progcheck.replay(chk, b, fam0, routes, wd, agree_group=level_of))
     per = {}
     done, k = 0, 0
     while done < n:
@@ -51,7 +66,7 @@ def run(chk, tier):
         fam = progcheck.Family(chk, progs, "gen%d" % k, workers=vlib.NCPU, timeout=1500)
         for s, c in fam.status_count.items():
             per[s] = per.get(s, 0) + c
-        progcheck.replay(chk, b, fam, routes, wd)
+        merge_agree(agree, progcheck.replay(chk, b, fam, routes, wd, agree_group=level_of))
         for p in fam.replayable[:3]:
             if len(chk.samples) < 4 and fam.exp[p["id"]]["status"] != "done":
                 chk.sample({"program": progcheck.render.render(p)[:1500], "expected_out": fam.exp[p["id"]]["out"][:300],
@@ -76,7 +91,8 @@ def run(chk, tier):
     sroutes = []
     for q in ([0, 2] if tier == "quick" else [0, 1, 2]):
         sroutes += [("split0-interp-Q%d" % q, "split0-interp", q, ()), ("split0-c-Q%d" % q, "split0-c", q, ())]
-    progcheck.replay(chk, b, famx, sroutes, wd)
+    merge_agree(agree, progcheck.replay(chk, b, famx, sroutes, wd, agree_group=level_of))
+    chk.extra["off_specification_but_routes_agree"] = agree
     for s_, c in famx.status_count.items():
         per["split:" + s_] = c
     # the pinned corpus through the Obs monitor: interpreter at -Q0 is the reference observation
